@@ -24,7 +24,7 @@ CLAIMED = {
  "C20": dict(
    text="Lean proof that the model of natsort.Less is a strict total order on ALL byte strings (irreflexive, asymmetric, transitive, total) by refinement to a "
         "lexicographic order on injective token keys, and that a list therefore has exactly one sorted permutation (order of the input and choice of sorting "
-        "routine are irrelevant); metadata definitions listed in any order translate to the same section (meta_defs_order_independent). Tied to the code by differential runs of natsort.Less / natsort.Strings and order-law / numeric-reading oracles on the real function.",
+        "routine are irrelevant); metadata definitions listed in any order translate to the same section (meta_defs_order_independent); the five definition lists of a printed module are sorted permutations of what was written and do not depend on the order of the input (printed_order_canonical, printed_order_input_order_independent). Tied to the code by differential runs of natsort.Less / natsort.Strings, order-law / numeric-reading oracles on the real function, and mod.deforder: modules whose type definitions, comdats, named metadata, attribute groups and metadata definitions are written in random order print them in the order the model computes.",
    note="Lean kernel + propext/Quot.sound/Classical.choice; model LlirModel/Natsort.lean hand-written (index pair abstracted to suffixes); sort.Sort assumed to return a sorted permutation.",
    technique="Lean 4 proof over a hand-written model + differential correspondence with the Go implementation", design="§4 C20"),
  "C18": dict(
@@ -48,7 +48,7 @@ CLAIMED = {
         "(equal_iff_eq) and exactly when the printed texts coincide (equal_iff_same_text). The injectivity of the type printer that PointerType.Equal relies on is a theorem "
         "(printer_injective), obtained from a reader of printed types proved to invert the printer on every type (print_parse_roundtrip). Tied by Equal/String correspondence "
         "on generated pairs incl. real self-referential named structs, exhaustive depth<=2 universe in thorough, print->parse oracles, and the reader compared with the real "
-        "parser on printed and mutated type texts.",
+        "parser on printed and mutated type texts, and ty.staged: types built in stages (shell, observation, completion through exported fields and SetName) equal and print as their final structure.",
    note="Lean kernel + propext/Quot.sound; model LlirModel/Types.lean hand-written in the property's universe (names unique, only structs named); StrInj is assumed, not proved.",
    technique="Lean 4 proof over a hand-written model + differential correspondence with the Go implementation", design="§4 C16"),
  "C06": dict(
@@ -92,7 +92,7 @@ CLAIMED = {
         "object that is a listed definition of exactly that namespace and key (forward/mutual/self references alike), locals resolve inside their own function, and the resolved "
         "edges are exactly the index lookups. Tied by agreement on acceptance and ordered definition lists for generated modules, and by a reflection walk of the whole parsed "
         "object graph (orphans, placeholders, foreign locals, parent links), by mod.refs (the comdat / attribute groups each entity is bound to, by name). On real text (M-Whole): "
-        "whole_global_refs_resolve — every @name operand of every accepted module names a global variable or function the module lists. Partial: outside M-Whole instruction "
+        "whole_global_refs_resolve — every @name operand of every accepted module names a global variable or function the module lists; whole_attachment_refs_resolve — every metadata attachment of an instruction names a definition of the metadata section. Partial: outside M-Whole instruction "
         "payloads are abstracted to reference sites.",
    note="Lean kernel + propext/Quot.sound; M-Resolve hand-written; generator renders text and skeleton from one description; closure walker trusted.",
    technique=T, design="§4 C04"),
@@ -145,11 +145,11 @@ CLAIMED = {
    text="The operand/successor table of all 54 instruction and 12 terminator types is regenerated on every run (types listed from the source by go/ast; a live instance of each "
         "analysed by reflection with slots identified by address) and the Lean kernel decides on the complete table that Operands() exposes exactly one live slot per value "
         "the instruction uses, that Succs() is exactly LLVM's successor list in order, and that it follows retargeting. Dynamic oracle: writing a fresh value through each "
-        "slot of constructor-built instructions changes the printed instruction exactly there. Two defects were repaired by fix commits.",
+        "slot of constructor-built instructions changes the printed instruction exactly there. Every row is analysed in four shapes (distinct values, sparse helper lists, one value in every slot, the instruction itself in every slot). Two defects were repaired by fix commits.",
    note="Lean kernel (decide +kernel); trusted: table generator (go/ast + reflection analyser), hand-written specSuccs, harness.",
    technique="Lean 4 kernel decision over a table regenerated from source + differential oracle on the implementation", design="§4 C15"),
  "C10": dict(
-   text="Partial. Lean proof, for ANY IEEE-754 interchange format (instantiated for half, double/float patterns, fp128) and for canonical x86_fp80 encodings, that every non-NaN "
+   text="Partial. Lean proof, for ANY IEEE-754 interchange format (instantiated for half, double/float patterns, fp128) and for x86_fp80 (canonical encodings bit for bit; EVERY 80-bit pattern, canonical or not, at the level of the value: fp80_every_encoding_value_preserved), that every non-NaN "
         "bit pattern — signed zeros, subnormals, normals, infinities — is preserved exactly by parse-then-print-in-hex, that distinct patterns denote distinct values in the "
         "library's carrier, and that NaNs keep NaN-ness and sign only (payload loss kernel-checked and recorded as a known finding). Decimal notation, rounding and ppc_fp128 "
         "are tied by correspondence and an exact-rational oracle on the implementation (all 2^16 half patterns in thorough).",
